@@ -31,10 +31,17 @@ type cfg struct {
 	Attempts int
 	Cooldown int
 	Mult     int
+	// Prefill: the history starts in a state in which this many OTHER sequences are in the
+	// middle of their retries (their state is held by the remedy): a non-initial start state
+	Prefill int
 }
 
 func (c cfg) String() string {
-	return fmt.Sprintf("%s attempts=%d cooldown=%d multiplier=%d", c.Mode, c.Attempts, c.Cooldown, c.Mult)
+	s := fmt.Sprintf("%s attempts=%d cooldown=%d multiplier=%d", c.Mode, c.Attempts, c.Cooldown, c.Mult)
+	if c.Prefill > 0 {
+		s += fmt.Sprintf(" start=%d-other-sequences-retrying", c.Prefill)
+	}
+	return s
 }
 
 var statuses = []int{200, 500, 503, 404}
@@ -55,7 +62,7 @@ func (e event) String() string {
 func alphabet(c cfg) []event {
 	var ev []event
 	sts := statuses
-	if c.Mode == "flows" {
+	if c.Mode == "flows" || c.Prefill > 0 {
 		sts = []int{200, 500} // one in-condition, one out-of-condition status (engine runs are ~2.5 ms each)
 	}
 	for s := 0; s < 2; s++ {
@@ -64,8 +71,12 @@ func alphabet(c cfg) []event {
 		}
 	}
 	ev = append(ev, event{seq: -1, tick: time.Second})
-	if c.Mode == "policy" {
+	if c.Mode == "policy" && c.Prefill == 0 {
 		ev = append(ev, event{seq: -1, tick: 5 * time.Minute}) // beyond the retry-state TTL
+	}
+	if c.Mode == "flows" {
+		// beyond the proxy's retry-request timeout (600 s in this harness): a slow provider
+		ev = append(ev, event{seq: -1, tick: 11 * time.Minute})
 	}
 	return ev
 }
@@ -172,6 +183,13 @@ func newModel(c cfg) *model {
 		m.plugin = remedies.NewRetryPlugin(clock.NewRealClock())
 		m.rc = &sharedConfig.RetryConfig{Attempts: c.Attempts, InitialCooldownSeconds: c.Cooldown, CooldownMultiplier: c.Mult,
 			Conditions: sharedConfig.RetryConfigConditions{StatusCode: []sharedConfig.Range[int]{{From: 500, To: 599}}}}
+		for i := 0; i < c.Prefill; i++ {
+			// another client's call failed once and was told to retry
+			id := fmt.Sprintf("other-%d", i)
+			if _, err := m.plugin.OnResponse(lunarMessages.OnResponse{ID: id, SequenceID: id, Method: "GET", URL: "h.com/a", Status: 503, Headers: map[string]string{}}, m.rc); err != nil {
+				panic(err)
+			}
+		}
 		return m
 	}
 	os.Setenv("LUNAR_RETRY_REQUEST_TIMEOUT_SEC", "600")
@@ -293,6 +311,20 @@ func (m *model) Key() string {
 	impl := ""
 	if m.plugin != nil {
 		impl = remedies.VerifRetryState(m.plugin, time.Now())
+		if m.c.Prefill > 0 {
+			// the other sequences' entries are the same in every state of this family except
+			// for their age, which the ages of X and Y determine: only their number is kept
+			var keep []string
+			others := 0
+			for _, part := range strings.Split(impl, ";") {
+				if strings.HasPrefix(part, "other-") {
+					others++
+				} else {
+					keep = append(keep, part)
+				}
+			}
+			impl = fmt.Sprintf("%s;others=%d", strings.Join(keep, ";"), others)
+		}
 	} else if m.flowCtx != nil {
 		impl = lunarcontext.VerifDumpContext(m.flowCtx)
 	}
@@ -305,11 +337,14 @@ func configs() []cfg {
 		for _, a := range []int{1, 2, 3} {
 			for _, cd := range []int{0, 1} {
 				for _, mu := range []int{1, 2} {
-					cs = append(cs, cfg{mode, a, cd, mu})
+					cs = append(cs, cfg{Mode: mode, Attempts: a, Cooldown: cd, Mult: mu})
 				}
 			}
 		}
 	}
+	// policy mode from a non-initial state: 1100 other sequences are in the middle of their
+	// retries (more than any plausible internal bound on tracked sequences up to 1024)
+	cs = append(cs, cfg{Mode: "policy", Attempts: 3, Cooldown: 0, Mult: 1, Prefill: 1100})
 	return cs
 }
 
@@ -339,7 +374,7 @@ func TestCheck(t *testing.T) {
 		}
 		return
 	}
-	r.Rule = fmt.Sprintf("explicit-state BFS over histories of provider statuses {200,404,500,503} of two interleaved sequences X,Y plus clock steps, for %d configurations (policy|flows mode x attempts 1-3 x cool-down 0-1 x multiplier 1-2); depth attempts+5 (thorough: 2*attempts+6); the harness plays the client protocol; every transition runs the real RetryPlugin / a real Stream with the Retry processor; distinct = reference states reached", len(cs))
+	r.Rule = fmt.Sprintf("explicit-state BFS over histories of provider statuses {200,404,500,503} of two interleaved sequences X,Y plus clock steps, for %d configurations (policy|flows mode x attempts 1-3 x cool-down 0-1 x multiplier 1-2, plus policy mode started from a state with 1100 other sequences in the middle of their retries); clock steps 1 s, 5 min (policy: beyond the state TTL), 11 min (flows: beyond the retry-request timeout); depth attempts+5 (thorough: 2*attempts+6); the harness plays the client protocol; every transition runs the real RetryPlugin / a real Stream with the Retry processor; distinct = reference states reached", len(cs))
 	r.Assume("flows mode: retry condition implemented by a Filter(status_code_range 500-599) processor in front of Retry",
 		"policy mode: the retry state may expire after cool-down+31 s; an early failure after such a gap is not flagged")
 	if r.Parallel(t, 16) {
@@ -352,6 +387,9 @@ func TestCheck(t *testing.T) {
 		}
 		al := alphabet(c)
 		depth := mc.Pick(r, c.Attempts+5, 2*c.Attempts+6)
+		if c.Prefill > 0 {
+			depth = mc.Pick(r, c.Attempts+2, c.Attempts+4)
+		}
 		st, tr := mc.BFS(r, mc.BFSOpts{Name: c.String(), NEvents: len(al), MaxDepth: depth,
 			EvName: func(e int) string { return al[e].String() },
 			Run: func(body func(mc.Model)) {
